@@ -112,7 +112,7 @@ def _patches(valid='all'):
     return make
 
 
-def body(ctx, conv, shape, bounds, nan_cells=None, mesh_opts=None):
+def body(ctx, conv, shape, bounds, nan_cells=None, mesh_opts=None, history=False):
     from emsarray.operations import geometry as G
     from emsarray.state import State
     P = pipeline.build(ctx, conv, shape, bounds=bounds, nan_cells=nan_cells, mesh_opts=mesh_opts)
@@ -126,6 +126,15 @@ def body(ctx, conv, shape, bounds, nan_cells=None, mesh_opts=None):
     os.makedirs(os.path.join(VERIF, '.work'), exist_ok=True)
     work = tempfile.mkdtemp(dir=os.path.join(VERIF, '.work'), prefix='c15-')
     try:
+        if history:
+            # an export depends on the dataset, not on what was exported before: another dataset that carries the
+            # same source path (a file replaced on disk, a subset of the same file) is exported first, in every format
+            from symx import builders
+            ds.encoding['source'] = '/data/model/run1.nc'
+            earlier = builders.cf1d(3, 2)
+            earlier.encoding['source'] = ds.encoding['source']
+            for fn, name in ((G.write_geojson, 'e.geojson'), (G.write_shapefile, 'e.shp'), (G.write_wkt, 'e.wkt'), (G.write_wkb, 'e.wkb')):
+                fn(earlier, os.path.join(work, name))
         # GeoJSON
         G.write_geojson(ds, os.path.join(work, 'g.geojson'))
         if ctx.symbolic:
@@ -276,6 +285,10 @@ def cases(tier):
         nm = 'all' if nan_cells is None else len(nan_cells)
         yield Case(f'{conv}:{shape[0]}x{shape[1]}:{bounds}:nan{nm}', body, dict(conv=conv, shape=shape, bounds=bounds, nan_cells=nan_cells),
                    patches=_patches(), max_paths=5000, split=8)
+    for conv, shape, bounds, nan_cells in (cfgs[1:2] if q else cfgs[1:4]):
+        nm = 'all' if nan_cells is None else len(nan_cells)
+        yield Case(f'{conv}:{shape[0]}x{shape[1]}:{bounds}:nan{nm}:after-another-export', body,
+                   dict(conv=conv, shape=shape, bounds=bounds, nan_cells=nan_cells, history=True), patches=_patches(), max_paths=5000, split=8)
     for conv in ('shoc_standard', 'cf1d'):
         yield Case(f'large:{conv}:101x11', body_large, dict(conv=conv), patches=_large_patches(), max_paths=5)
     for mesh in (['tqp'] if q else ['tqp', 'fan', 'tq']):
